@@ -17,6 +17,7 @@ import (
 
 	"github.com/flant/kube-client/fake"
 	metricstorage "github.com/flant/shell-operator/pkg/metric_storage"
+	"github.com/flant/shell-operator/pkg/task"
 	"github.com/flant/shell-operator/pkg/task/queue"
 )
 
@@ -110,5 +111,22 @@ func TestVerifConfHookQueues(t *testing.T) {
 		}
 		time.Sleep(100 * time.Millisecond)
 	}
-	fmt.Printf("CONF-STATS evaluated=%d scope=two hooks with schedule and kubernetes bindings on main, q1 (shared by two hooks) and q2: initAndStartHookQueues twice after bootstrapMainQueue: main and every existing queue keep their identity, exactly the named queues exist; then TaskQueueSet.Stop: every queue reaches status stop\n", evaluated)
+	// a queue created after the stop request (shutdown racing with start-up) must not run anything
+	{
+		evaluated++
+		ran := 0
+		op.TaskQueues.NewNamedQueue("late", func(t task.Task) queue.TaskResult {
+			ran++
+			return queue.TaskResult{Status: "Success"}
+		})
+		late := op.TaskQueues.GetByName("late")
+		late.AddLast(task.NewTask("HookRun"))
+		late.AddLast(task.NewTask("HookRun"))
+		late.Start()
+		time.Sleep(700 * time.Millisecond)
+		if ran > 0 || late.GetStatus() != "stop" {
+			report("hook-queues-late-queue-runs-after-stop", fmt.Sprintf("a queue created and started after TaskQueueSet.Stop executed %d task(s), status %q", ran, late.GetStatus()))
+		}
+	}
+	fmt.Printf("CONF-STATS evaluated=%d scope=two hooks with schedule and kubernetes bindings on main, q1 (shared by two hooks) and q2: initAndStartHookQueues twice after bootstrapMainQueue: main and every existing queue keep their identity, exactly the named queues exist; then TaskQueueSet.Stop: every queue reaches status stop, and a queue created afterwards runs nothing\n", evaluated)
 }
